@@ -15,7 +15,8 @@ RULE = ("pairs (A, B) of generated structures (B independent or a copy of A, inc
         "chain ids with shifted residue numbers or getting fresh chain ids) x B moved by an exact grid motion so that "
         "the bounding boxes are separated by a drawn gap along a drawn axis (25.001-30 A, 30-100 A, 100-999 A, "
         "1000-1500 A, up to the limit of the coordinate field with A pushed to the opposite corner) x both file "
-        "orders; parts are separated by a TER record. Non-trivial: both parts own >= 1 reported group with a "
+        "orders; parts are separated by a TER record; every library ligand / ion alone as a part at 25-39 A from a "
+        "protein fragment; drawn parameter files. Non-trivial: both parts own >= 1 reported group with a "
         "determinant; distinct by hash of the union text.")
 ASSUMPTIONS = ["bounding-box gap >= 25.001 A along one axis, hence >= 25 A between nearest atoms (the statement's "
                "sufficient condition); tighter separations are not claimed"]
@@ -229,3 +230,33 @@ def run_shard(ctx):
                               "cfgspec": c["cfgspec"], "order": c["order"]}
             ctx.account(c, v, info)
         ctx.loop_stage("coupled-ligand-per-part", [items[i] for i in ctx.my_slice(len(items))], two)
+
+    # every library ligand and ion as a part of its own, just beyond the range, next to a protein fragment: each group
+    # type then meets protein backbone and side chains at 25-40 A
+    if True:
+        frag = ensure_ter([e for e in strip_end(pdbio.parse(gen.corpus_text("1FTJ-Chain-A")))
+                           if isinstance(e, Atom) and e.resnum < 60])
+        (a0, a1) = pdbio.bbox(frag)
+        names = sorted(gen.LIGANDS) + sorted(gen.IONS)
+        combos = [(n, gap, order) for n in names for gap in (25001, 27500, 33000, 39000) for order in ("AB", "BA")]
+        mine = [combos[i] for i in ctx.my_slice(len(combos))]
+
+        def lib(t):
+            name, gap, order = t
+            if name in gen.LIGANDS:
+                resn, mol = gen.LIGANDS[name]["resn"], gen.LIGANDS[name]["atoms"]
+            else:
+                resn, mol = name, [(gen.IONS[name], 0, 0, 0)]
+            het = gen.hetero_residue(resn, mol, "L", 700, pdbio.ROTATIONS[(gap // 500) % 24], (0, 0, 0))
+            (b0, b1) = pdbio.bbox(het)
+            # along x, level with the middle of the fragment in y and z
+            shift = (a1[0] + gap - b0[0], (a0[1] + a1[1]) // 2 - b0[1], (a0[2] + a1[2]) // 2 - b0[2])
+            het = pdbio.move(het, pdbio.ROTATIONS[0], shift)
+            c = {"part_a": pdbio.write(frag), "part_b": pdbio.write(het), "order": order, "band": "25-40"}
+            v, info = check_case(c)
+            info["nontrivial"] = True
+            info["labels"] = info.get("labels", []) + ["library-part:" + name]
+            info["sample"] = {"part_a": "corpus 1FTJ-Chain-A residues < 60", "part_b": "library " + name,
+                              "gap_A": gap / 1000.0, "order": order}
+            ctx.account(c, v, info)
+        ctx.loop_stage("library-molecule-as-a-part", mine, lib)
